@@ -128,7 +128,7 @@ def check_rate_order(drv, r, stats):
             idx = [i for i, v in enumerate(col) if v == lab]
             if idx:
                 rates[lab] = F(sum(F(y[i]) for i in idx), len(idx))
-        seq = [rates[l] for l in labels[f] if l != carvecase.NAN and l in rates]
+        seq = [rates[l] for l in labels[f] if l != disc.str_nan and l in rates]
         if any(a > b for a, b in zip(seq, seq[1:])):
             fails.append({"kind": "property", "what": "categorical modalities are not in training target-rate order", "feature": f,
                           "labels": labels[f], "rates": [float(x) for x in seq]})
